@@ -5,6 +5,9 @@ find_fqn/FindResult, all generators), PortSelect/PortsSemanticsCfg/PortsCfg/Mult
 construction.
 """
 import traceback
+import contextlib
+import dataclasses
+import io
 from typing import Callable, List, Optional, Tuple
 from vf import realcode  # noqa: F401
 from vf.spec import H, pick
@@ -215,21 +218,30 @@ def build_fault(case: fam.Case, base_cfg: PortsCfg, fault: int) -> Optional[Call
 NFAULTS = 28
 
 
-def _valid_case(ci: int) -> bool:
+# the configuration fields that do not take part in the validity of a configuration: verbose, creator_info
+FLAGS = [dict(), dict(verbose=True), dict(creator_info=None), dict(verbose=True, creator_info=None)]
+
+
+def _quiet_build(cfg):
+    with contextlib.redirect_stdout(io.StringIO()):
+        return Builder().build(cfg)
+
+
+def _valid_case(ci: int, flags: int) -> bool:
     case, pc = fam.VALID[ci]
-    cfg = fam.make_configuration(case, pc)
-    res = Builder().build(cfg)           # valid inputs always succeed; any exception escapes
+    cfg = dataclasses.replace(fam.make_configuration(case, pc), **FLAGS[flags])
+    res = _quiet_build(cfg)              # valid inputs always succeed; any exception escapes
     return complete(res, case)
 
 
-def _fault_case(ci: int, fault: int) -> bool:
+def _fault_case(ci: int, fault: int, flags: int) -> bool:
     case, pc = fam.VALID[ci]
     thunk = build_fault(case, pc, fault)
     if thunk is None:
         return True
     try:
-        cfg = thunk()
-        Builder().build(cfg)
+        cfg = dataclasses.replace(thunk(), **FLAGS[flags])
+        _quiet_build(cfg)
     except Exception as exc:  # pylint: disable=broad-except
         if diagnosed(exc):
             return True
@@ -237,14 +249,15 @@ def _fault_case(ci: int, fault: int) -> bool:
     return False                          # invalid input must never produce files
 
 
-def h_valid(ci: int) -> bool:
-    """Every valid case of the family builds the complete file set."""
-    return run_native(_valid_case, pick(range(len(fam.VALID)), ci))
+def h_valid(ci: int, flags: int) -> bool:
+    """Every valid case of the family builds the complete file set (verbose on/off, creator_info present/absent)."""
+    return run_native(_valid_case, pick(range(len(fam.VALID)), ci), pick(range(len(FLAGS)), flags))
 
 
-def h_fault(ci: int, fault: int) -> bool:
-    """Every single-fault variation of every valid case fails with a diagnosed error."""
-    return run_native(_fault_case, pick(range(len(fam.VALID)), ci), pick(range(NFAULTS), fault))
+def h_fault(ci: int, fault: int, flags: int) -> bool:
+    """Every single-fault variation of every valid case fails with a diagnosed error (verbose off/on)."""
+    return run_native(_fault_case, pick(range(len(fam.VALID)), ci), pick(range(NFAULTS), fault),
+                      pick(range(2), flags))
 
 
 # ---- symbolic names (hunt) -------------------------------------------------------------------------
@@ -271,16 +284,16 @@ def h_sym_names(enc: str, port: str, claim: str, val: str, rel: str) -> bool:
 
 
 SPECS = [
-    H('h_valid', 'deep', pre=['0 <= ci < %d' % len(fam.VALID)],
+    H('h_valid', 'deep', pre=['0 <= ci < %d' % len(fam.VALID), '0 <= flags < 4'],
       quick=dict(ct=280, pt=60), thorough=dict(ct=600, pt=60),
       shards=lambda p: [f'ci % 8 == {i}' for i in range(8)],
-      bounds='all %d valid cases of the family' % len(fam.VALID)),
-    H('h_fault', 'deep', pre=['0 <= ci < %d' % len(fam.VALID), '0 <= fault < %d' % NFAULTS],
+      bounds='all %d valid cases of the family x verbose off/on x creator_info present/absent' % len(fam.VALID)),
+    H('h_fault', 'deep', pre=['0 <= ci < %d' % len(fam.VALID), '0 <= fault < %d' % NFAULTS, '0 <= flags < 2'],
       quick=dict(ct=280, pt=60), thorough=dict(ct=900, pt=60),
       shards=lambda p: [f'ci % 16 == {i}' for i in range(16)],
       bounds='%d valid cases x %d single faults (unknown / non-component encapsulee, unresolvable / '
              'ambiguous / wrong-kind port type, unknown / unassigned / contradictory selections, every '
-             'invalid multi-client field)' % (len(fam.VALID), NFAULTS)),
+             'invalid multi-client field) x verbose off/on' % (len(fam.VALID), NFAULTS)),
     H('h_sym_names', 'hunt',
       pre=['len(enc) <= 1', 'len(port) <= 1', 'len(claim) <= 1', 'len(val) <= 1', 'len(rel) <= 1'],
       quick=dict(ct=100, pt=30), thorough=dict(ct=900, pt=60),
